@@ -67,11 +67,8 @@ def run(ctx: RuleContext, p: Program) -> None:
         ctx.require_min(r, 34)
     ctx.require_min('FV-COVER', 20)
     rule_ctor_dom(ctx, p, 'CTOR-DOM')
-    try:
-        from . import grammar_rules
-        grammar_rules.rule_gram_fields(ctx, p, tcs, 'GRAM-FIELDS')
-    except ImportError:
-        pass
+    from . import grammar_rules
+    grammar_rules.rule_gram_fields(ctx, p, tcs, 'GRAM-FIELDS')
     ctx.not_decided += ['that the printed text of a constructed model parses (runtime / lexer)',
                         'that the parsed result has equal fields and values (runtime)']
     ctx.assumptions += ['detach()/reattach() semantics as decided under C05', 'separator tokens are deep-copied (SEP-PROV under C03/C11)']
